@@ -490,7 +490,7 @@ func appendAltText(dst []byte, source []byte, parent *Inline) []byte {
 		curr := stack[len(stack)-1]
 		stack = stack[:len(stack)-1]
 		switch curr.Kind() {
-		case TextKind:
+		case TextKind, CharacterReferenceKind:
 			if !hasAttr {
 				dst = append(dst, ` alt="`...)
 				hasAttr = true
